@@ -41,6 +41,50 @@ pub fn made_counts() -> Vec<(usize, usize)> {
 #[derive(Debug, Clone, Copy, PartialEq)]
 pub struct Dbg(pub i64);
 
+/// `ToString` implemented by hand (no `Display`) beside a different `Debug`: labelled by `to_string()`.
+#[derive(Clone, Copy, PartialEq)]
+pub struct OwnStr(pub i64);
+#[allow(clippy::to_string_trait_impl)]
+impl ToString for OwnStr {
+    fn to_string(&self) -> String {
+        format!("own{}", self.0)
+    }
+}
+impl std::fmt::Debug for OwnStr {
+    fn fmt(&self, f: &mut std::fmt::Formatter<'_>) -> std::fmt::Result {
+        write!(f, "DEBUG-OF-OWN<{}>", self.0)
+    }
+}
+impl LogVal for OwnStr {
+    fn render(&self) -> String {
+        format!("s{}", enc(&format!("own{}", self.0)))
+    }
+}
+
+/// `Display` beside a different `Debug`: labelled by `Display`.
+#[derive(Clone, Copy, PartialEq)]
+pub struct DispDbg(pub i64);
+impl std::fmt::Display for DispDbg {
+    fn fmt(&self, f: &mut std::fmt::Formatter<'_>) -> std::fmt::Result {
+        write!(f, "disp{}", self.0)
+    }
+}
+impl std::fmt::Debug for DispDbg {
+    fn fmt(&self, f: &mut std::fmt::Formatter<'_>) -> std::fmt::Result {
+        write!(f, "DEBUG-OF-DISP<{}>", self.0)
+    }
+}
+impl LogVal for DispDbg {
+    fn render(&self) -> String {
+        format!("s{}", enc(&format!("disp{}", self.0)))
+    }
+}
+
+fn num_of(label: &str) -> i64 {
+    let digits: String = label.chars().filter(|c| c.is_ascii_digit() || *c == '-').collect();
+    digits.parse().expect("number in label")
+}
+
 /// Every value is rendered as the empty string: several rows with the same (empty) label.
 #[derive(Clone, Copy, PartialEq)]
 pub struct Blank(pub i64);
@@ -194,6 +238,23 @@ fn args_runner<const ID: usize>() -> BenchEntryRunner {
                 || {
                     made();
                     a.ints.iter().map(|&v| Dbg(v)).collect::<Vec<Dbg>>()
+                },
+                |x| ToStringHelper(x).to_string(),
+                |b, x| arg_body(ID, b, x),
+            ),
+            // own ToString + Debug / Display + different Debug (the case's values are the expected labels)
+            b'o' => st.runner(
+                || {
+                    made();
+                    a.strs.iter().map(|s| OwnStr(num_of(s))).collect::<Vec<OwnStr>>()
+                },
+                |x| ToStringHelper(x).to_string(),
+                |b, x| arg_body(ID, b, x),
+            ),
+            b'y' => st.runner(
+                || {
+                    made();
+                    a.strs.iter().map(|s| DispDbg(num_of(s))).collect::<Vec<DispDbg>>()
                 },
                 |x| ToStringHelper(x).to_string(),
                 |b, x| arg_body(ID, b, x),
